@@ -102,6 +102,29 @@ def F4i():
     return ("AttributeError" in names(exc)), f"exception escaping handle(): {names(exc)}; access records {h.log.records}"
 
 
+def F13c():
+    """h2c upgrade whose HTTP2-Settings value is not UTF-8"""
+    async def sc(h):
+        await h.feed(b"GET / HTTP/1.1\r\nHost: x\r\nConnection: Upgrade, HTTP2-Settings\r\nUpgrade: h2c\r\nHTTP2-Settings: \xff\xfe\r\n\r\n")
+        return h.wire
+    h, r, exc = run_h1(ok_app, sc)
+    return ("UnicodeDecodeError" in names(exc)), f"exception escaping handle(): {names(exc)}"
+
+
+def F7a():
+    """unknown server name answered 404: the stream stays attached, the connection is never idle"""
+    cfg = Config()
+    cfg.server_names = ["example.com"]
+
+    async def sc(h):
+        await h.feed(b"GET / HTTP/1.1\r\nHost: other\r\n\r\n")
+        await h.settle()
+        return (h.idle, h.closed, h.proto.protocol.stream is not None, h.wire[:12])
+    h, r, exc = run_h1(ok_app, sc, config=cfg)
+    idle, closed, attached, wire = r if r else (None, None, None, b"")
+    return (exc is None and wire.startswith(b"HTTP/1.1 404") and attached and not closed and idle is not True), f"after the 404: stream still attached={attached}, connection closed={closed}, last idle report={idle}"
+
+
 SCENARIOS = {k: v for k, v in globals().items() if k.startswith("F") and callable(v)}
 
 if __name__ == "__main__":
